@@ -161,13 +161,21 @@ def run_case(case):
            f"[{len(subset)}] strategy={case['strategy']}")
     try:
         try:
-            pio, acc = shardlib.open_writer(d, cfg, case["strategy"])
+            enc = "jpeg" if (cfg["data_type"] == "uint8" and cfg["num_channels"] == 1
+                             and case["sseed"] % 2) else "raw"
+            obs["jpeg_payloads_in_gzip_shards"] = int(enc == "jpeg"
+                                                      and cfg["data_encoding"] == "gzip")
+            pio, acc = shardlib.open_writer(d, cfg, case["strategy"], enc)
             tr = tracer.Trace()
             tracer.trace_accessor(acc, tr)
             for pos in order:
                 pio.write_chunk(shardlib.chunk_array(np, cfg, pos), "s0",
                                 shardlib.coords_of(cfg, pos))
             acc.close()
+            if case["oseed"] % 2 == 0:
+                # the accessor's exit handler closes once more after the caller's own close
+                acc.close()
+                obs["closed_twice"] = 1
         except Exception as exc:  # noqa: BLE001
             v.append({"kind": "writer-raised", "detail": f"{ctx}: {type(exc).__name__}: "
                       f"{str(exc)[:200]}"})
@@ -269,4 +277,6 @@ def gates(obs, tier):
         "identifiers_beyond_2_16_and_2_32": obs.get("identifiers_ge_2_16", 0) > 0
         and obs.get("identifiers_ge_2_32", 0) > 0,
         "identifiers_beyond_2_53": obs.get("identifiers_gt_2_53", 0) > 0,
+        "accessors_closed_twice": obs.get("closed_twice", 0) > 100,
+        "jpeg_payloads_in_gzip_shards": obs.get("jpeg_payloads_in_gzip_shards", 0) > 10,
     }
